@@ -59,8 +59,10 @@ def gen_case(st, tier, env):
         elif r < 0.85:
             ops.append({"op": "sub_problem", "by": w.choice(["elements", "ids"]),
                         "pick": [w.randrange(64) for _ in range(w.randint(1, 4))]})
-        elif r < 0.93:
+        elif r < 0.9:
             ops.append({"op": "consensus", "alg": w.choice(["PickAPerm", "BordaCount"])})
+        elif r < 0.95:
+            ops.append({"op": "parse", "which": w.randrange(64), "notation": w.choice(["brace", "bracket"])})
         else:
             ops.append({"op": "views"})
     case["ops"] = ops
@@ -305,6 +307,19 @@ def run_case(case, ctx):
                 for i, r in enumerate(cons.consensus_rankings):
                     bads += ranking_views(r, f"{op['alg']}.consensus_rankings[{i}]")
                 report(bads, "C16/derived-views", kind, {"alg": op["alg"]})
+        elif kind == "parse":
+            # a ranking obtained by parsing the text of one of the dataset's rankings
+            if not ds.rankings:
+                continue
+            r0 = ds.rankings[op["which"] % len(ds.rankings)]
+            text = str(r0)
+            if op["notation"] == "bracket":
+                text = "[" + text[1:-1].replace("{", "[").replace("}", "]") + "]"
+            okp, pr = call(Ranking.from_string, text)
+            if okp:
+                ctx.probe("parsed_ranking_checked")
+                ctx.probe("derived_checked")
+                report(ranking_views(pr, "Ranking.from_string()"), "C16/derived-views", kind)
         else:
             ctx.probe("views_checked")
             report(dataset_views(ds), "C16/views", "views")
